@@ -670,7 +670,9 @@ C20_RULE = ('rapidcheck-generated programs: container type (9: vector, SmallVect
             'std::set and FlatSet) x state x 2..8 reader threads each running a generated list of const operations (size, iteration, [], at, find/'
             'contains/count/bounds, ==, <, copy construction) for 6 rounds after a common start flag with generated spin offsets x 0..2 writer threads '
             'each owning two container objects nobody else touches and running push_back / emplace and insert in the middle / erase / assign / swap / resize / '
-            'failing at() / comparisons (sets: insert, emplace, hinted insert, erase, swap, comparisons) on them; built with -fsanitize=thread; oracle: no ThreadSanitizer report and every reader result equals the '
+            'failing at() / comparisons / insertion from a single-pass range (sets: insert, emplace, hinted insert, range insert, erase, swap, comparisons) on them; the shared '
+            'objects are built (FlatSets in half of the cases adopted from an unsorted vector) and then left untouched until the threads start - the expected results '
+            'come from twins; three quarters of the processes run the C++17 build, one quarter the C++20 build; built with -fsanitize=thread; oracle: no ThreadSanitizer report and every reader result equals the '
             'precomputed single-threaded result; non-trivial = at least two readers execute a common operation kind on the shared container; '
             'distinct = distinct (container, state, per-thread programs)')
 
